@@ -25,6 +25,17 @@ fn text(seed: u8, n: usize) -> String {
 }
 
 pub fn string_op<'b>(ctx: &mut Ctx, bump: &'b Bump, s: &mut BString<'b>, t: &mut String, code: u8, a: u8, b: u8, c: u8) -> SAfter<'b> {
+    let cap_before = s.capacity();
+    let r = string_op_inner(ctx, bump, s, t, code, a, b, c);
+    // Room obtained from with_capacity_in / reserve stays with the string until it is shrunk explicitly or assigned
+    // wholesale: no other operation may lower the capacity (C18: reserved capacity is usable later without moving).
+    if matches!(r, SAfter::Keep) && code != 28 && code != 18 && s.capacity() < cap_before {
+        ctx.v("C18", format!("String operation #{code} lowered the capacity from {cap_before} to {} without shrink_to_fit", s.capacity()));
+    }
+    r
+}
+
+fn string_op_inner<'b>(ctx: &mut Ctx, bump: &'b Bump, s: &mut BString<'b>, t: &mut String, code: u8, a: u8, b: u8, c: u8) -> SAfter<'b> {
     let len = t.len();
     match code {
         0 | 25 => {
